@@ -923,12 +923,33 @@ class SR:
     def __le__(s, o): return s._cmp(o, 'le')
     def __gt__(s, o): return s._cmp(o, 'gt')
     def __ge__(s, o): return s._cmp(o, 'ge')
-    def __eq__(s, o): return s._cmp(o, 'eq')
-    def __ne__(s, o): return s._cmp(o, 'ne')
+    def __eq__(s, o):
+        r = s._cmp(o, 'eq')
+        if isinstance(r, SB) and CTX is not None and CTX.opts.get('no_ties') and isinstance(o, SR):
+            # generic-position assumption requested by the harness: two distinct symbolic quantities are never exactly
+            # equal (ties are measure-zero and, where used, not ruled by the property); recorded in the evidence
+            ctx = CTX
+            ne = z3.Not(r.e)
+            if ctx._feasible(ne, ctx.opts['branch_timeout_ms']):
+                ctx.solver.add(ne)
+                ctx.pc.append(ne)
+                if 'no exact ties between distinct symbolic quantities' not in ctx.assumed:
+                    ctx.assumed.append('no exact ties between distinct symbolic quantities')
+                return False
+            return True
+        return r
+
+    def __ne__(s, o):
+        r = s.__eq__(o)
+        if isinstance(r, SB):
+            return ~r
+        if r is NotImplemented:
+            return r
+        return not r
     __hash__ = object.__hash__
 
     def __bool__(s):
-        r = s != 0
+        r = s._cmp(0, 'ne')
         return bool(r)
 
     def __float__(s):
